@@ -201,11 +201,13 @@ impl Property for C11 {
                 }
             }
         }
-        // the use-window clause: C03 / C17 oracles on the same history
-        for v in super::browse::C03.judge(scn, tr).violations {
+        // the use-window clause: C03 / C17 oracles on the same history. Not in stall worlds: a daemon that was not scheduled
+        // reads a packet and evicts expired records in the same late iteration, in that order, so an event of that iteration
+        // can show a record that ran out during the stall; the slack of those oracles knows wake latency, not stalls
+        for v in super::browse::C03.judge(scn, tr).violations.into_iter().filter(|_| !stalled) {
             j.fail("C11-R1", format!("[{}] {}", v.rule, v.detail));
         }
-        for v in super::c17::C17.judge(scn, tr).violations {
+        for v in super::c17::C17.judge(scn, tr).violations.into_iter().filter(|_| !stalled) {
             if v.rule == "C17-R1" || v.rule == "C17-R3" {
                 j.fail(if v.detail.contains("flush") { "C11-R6" } else { "C11-R1" }, format!("[{}] {}", v.rule, v.detail));
             }
@@ -408,16 +410,19 @@ impl Property for C11 {
                 // strict: observed = scheduled ∪ marks (a mark that coincides with a scheduled query may merge with it)
                 let mut exp_marks = expected.clone();
                 let mut extra = vec![];
-                for t in &obs {
+                for (oi, t) in obs.iter().enumerate() {
                     if follow.contains(t) && !exp_marks.iter().any(|e| e.0 == *t) && !scheduled.contains(t) {
                         continue;
                     }
                     if let Some(p) = exp_marks.iter().position(|e| e.0 == *t) {
                         j.probe(exp_marks[p].1);
                         exp_marks.remove(p);
-                        // the same instant may also be a scheduled query
-                        if let Some(p2) = scheduled.iter().position(|s| s == t) {
-                            scheduled.remove(p2);
+                        // the same instant may also be a scheduled query: the two may merge into one packet, or go out as two
+                        let more_at_t = obs[oi + 1..].iter().any(|x| x == t);
+                        if !more_at_t {
+                            if let Some(p2) = scheduled.iter().position(|s| s == t) {
+                                scheduled.remove(p2);
+                            }
                         }
                     } else if let Some(p) = scheduled.iter().position(|s| s == t) {
                         scheduled.remove(p);
